@@ -7,7 +7,7 @@ import socksio
 
 from .._backends.sync import SyncBackend
 from .._backends.base import NetworkBackend, NetworkStream
-from .._exceptions import ConnectionNotAvailable, ProxyError
+from .._exceptions import ConnectionNotAvailable, ProxyError, map_exceptions
 from .._models import URL, Origin, Request, Response, enforce_bytes, enforce_url
 from .._ssl import default_ssl_context
 from .._synchronization import Lock, ShieldCancellation
@@ -249,7 +249,9 @@ class Socks5Connection(ConnectionInterface):
                     with Trace(
                         "setup_socks5_connection", logger, request, kwargs
                     ) as trace:
-                        _init_socks5_connection(**kwargs)
+                        # Replies that socksio cannot parse are proxy errors.
+                        with map_exceptions({socksio.ProtocolError: ProxyError}):
+                            _init_socks5_connection(**kwargs)
                         trace.return_value = stream
 
                     # Upgrade the stream to SSL
